@@ -10,6 +10,17 @@ id (zero_in), all others are provenance atoms; the clause for element (i,j) is t
 which neither factor is a structural zero (which is the full sum, the other terms being 0).  int32 with real adders,
 float/double in the ring reinterpretation (exact for integer-valued data; no rounding bound is machine-checked).
 Under avx2/avx512 _tmatmul dispatches to the masked-remainder variant when N % V > 1; both ISAs are in the quick tier.
+
+Box: quick -- per (ISA in sse2/avx2/avx512, type in double/float/int, tag pair of nine): one shape of a rotating list of squares,
+tall / wide / deep trapezoids and degenerate edges of [1..6]^3, two random shapes of the box and one shape next to a block /
+vector / remainder boundary of the kernel (interesting()); matrix-vector / vector-matrix overloads; TensorMap and expression
+operands; FASTOR_MATMUL_{OUTER,INNER}_BLOCK_SIZE variants (the k-clipping is computed from the unroll factors) under avx2.
+thorough -- [1..13]^3 sampled the same way (c++14: 5 random + 4 boundary + 2 cubes per cell; c++17: 2), six ISAs, all tag pairs
+for the block-size variants.  Instantiations with M*K*N > 250 (thorough only) ask for the assertion form of the same clauses
+directly (the DFCC-instrumented program exceeds the 45 s budget).
+Family ib5 (FASTOR_MATMUL_INNER_BLOCK_SIZE=5 and N >= 5V) fails on the unchanged tree -- genuine defect, native replay
+reproduces: interior_block_tmatmul_impl<..., numSIMDCols==5> accumulates the fifth column block with bmm3 instead of bmm4
+(tmatmul.h:272), so columns 4V..5V-1 of every 5V-wide block are wrong.
 """
 from units.common import *
 
